@@ -47,6 +47,12 @@ impl Watcher {
 	) -> Result<Box<dyn notify::Watcher + Send>, CriticalError> {
 		use notify::{Config, Watcher as _};
 
+		#[cfg(watchexec_verif)]
+		let f = match crate::verif::make_watcher(self, f) {
+			Ok(res) => return res,
+			Err(f) => f,
+		};
+
 		match self {
 			Self::Native => {
 				notify::RecommendedWatcher::new(f, Config::default()).map(|w| Box::new(w) as _)
